@@ -8,11 +8,11 @@ from checks import ddcommon
 
 META = {
     "title": "operations issued concurrently return the sequential handles; diagram stays well-formed with exact counts; the apply cache never serves a dangling weak edge",
-    "technique": "Rocq proof over a Gallina interleaving model of the concurrent unique table and reference counts (atomic actions get_or_insert / retain / release / move / collect-one-node of any number of threads; invariant = well-formed + per-level unique + exact counts, preserved by every action under every schedule; canonicity hence the same handle as a sequential run; collector removes only unowned, unreferenced nodes), extended by the apply cache (buckets with a lock bit and one entry of WEAK operand/value edges; try_lock / set / get+clone / unlock of the workers, pre_gc bucket by bucket / sweep / post_gc of the collector that runs under the shared lock): no dangling weak edge in any reachable state, a hit yields the memoised function, and the two broken protocol variants (empty buckets not kept locked; a lock() two parties can acquire) are refuted by computed witnesses; tie to the code: trace validation - the cfg(oxidd_verif) hooks of /repo log every get_or_insert, every collected node and every apply cache event (insertion, hit, per-bucket pre_gc lock and post_gc unlock, each reported with the bucket locked) inside parallel blocks run by several OS threads with seeded schedule perturbation, the log is replayed by the extracted step functions of the model and the manager's table after the block must equal the model's; results are compared with the sequential specification",
+    "technique": "Rocq proof over a Gallina interleaving model of the concurrent unique table and reference counts (atomic actions get_or_insert / retain / release / move / collect-one-node of any number of threads; invariant = well-formed + per-level unique + exact counts, preserved by every action under every schedule; canonicity hence the same handle as a sequential run; collector removes only unowned, unreferenced nodes), extended by the apply cache (buckets with a lock bit and one entry of WEAK operand/value edges; try_lock / set / get+clone / unlock of the workers, pre_gc bucket by bucket / sweep / post_gc of the collector that runs under the shared lock): no dangling weak edge in any reachable state, a hit yields the memoised function, and the two broken protocol variants (empty buckets not kept locked; a lock() two parties can acquire) are refuted by computed witnesses; tie to the code: trace validation on BOTH manager implementations (index-based: crates/oxidd-manager-index; pointer-based: crates/oxidd-manager-pointer, own unique table / gc code, node ids = addresses) - the cfg(oxidd_verif) hooks of /repo log every get_or_insert, every collected node and every apply cache event (insertion, hit, per-bucket pre_gc lock and post_gc unlock, each reported with the bucket locked) inside parallel blocks run by several OS threads with seeded schedule perturbation, the log is replayed by the extracted step functions of the model and the manager's table after the block must equal the model's; results are compared with the sequential specification",
     "category": "proof",
     "design_ref": "DESIGN.md section 5, C07",
-    "level_text": "Theorems (coq/Props/C07.v) over coq/Mgr/Conc.v: every action of every thread preserves the invariant CInv (keys distinct, node preconditions, per-level uniqueness, owned edges valid, reported count = owner tokens + parent edges), hence every state reachable under ANY interleaving is a well-formed snapshot with exact reference counts to which the canonicity theorems of C01 apply (two threads that build the same function hold the same edge = the handle of a sequential run); a node with a positive count keeps its level and children under every action of other threads and of the collector; the collector can only remove nodes without owner and parent; the table-only projection used for replay is simulated by the full model. C07_cache_* over coq/Mgr/ConcCache.v (apply cache of weak edges + collector phases, the code's protocol): the invariant KInv (CInv + every operand/value edge of every cache entry points to a stored node or terminal + buckets held by the collector are empty, locked and free of workers + one worker per bucket + exact lock bits) is preserved by every action of every thread and of the collector under every schedule; a hit returns valid edges, the thread owns them, and every edge of the entry denotes what it denoted when the entry was written (memoised function); whenever the collector removes a node all buckets are empty and locked; REFUTED by computed schedules: pre_gc skipping empty buckets, and a lock() that ignores the swapped value, both reach a dangling entry in an unlocked bucket whose next hit breaks CInv. The log-level replay lstep accepts the projection of every behaviour of the model (C07_cache_log_sim / trace_sim) and whatever it accepts has no dangling entry (C07_cache_log_inv / clog_inv). Tie to the code on every run: histories with 2-4 OS threads (plus the manager's worker pool: *MT function types with 1/2/4 workers) executing apply / ite / quantification / clone / drop and collections under the shared lock concurrently on one manager (BDD, BCDD, ZBDD), with seeded random yields/spins injected at the hook sites (level lock, apply cache get/add, retain/release, collector); (1) the logged table events are replayed by the extracted model step: no duplicate insertion, no stale hit, no dangling or ill-formed node, no collection of a referenced node, final table identical; (1b) the logged apply cache events are replayed by the extracted lstep/clstep: no insertion or hit in a bucket between its pre_gc lock and post_gc unlock, no removal by the collector unless ALL buckets are locked, post_gc unlocks exactly what pre_gc locked, every hit names stored nodes only and equals the entry written last; (2) every result's value table is compared with the sequential specification and all handles are audited for canonicity (same function => same edge, also across threads), well-formedness and exact reference counts on the snapshot after each block (extracted checkers of C01/C03/C05).",
-    "level_note": "PARTIAL by nature: the theorem is about the model's atomic actions; that the hooked regions of /repo are atomic (correctness of parking_lot mutexes, the hand-written RwLock and the cache's spin lock, Release/Acquire ordering on reference counts, rayon) is assumed, not verified, and data races below the granularity of the hooks cannot be exhibited: a broken bucket lock is only seen when the race actually happens in a run (the gcstorm cases make the collector take 1-2 buckets a few thousand times per case while 3 threads hammer them). The explored interleavings are those the OS scheduler plus the seeded perturbation produce (a search, not an enumeration): a replay re-runs the same case and seed but the interleaving may differ. The cache model's operator is opaque: 'memoised function' = the denotations of operand and value edges are unchanged between insertion and hit (any relation between them that held at insertion holds at the hit); it is not instantiated with the CacheOK predicate of the apply proofs (C02). The log does not contain the operator and numeric operands of an entry nor the cache contents at the start of a block (entries written before are 'unknown': their hits are only checked for dangling edges). Deadlock freedom is covered by the watchdog (a hang is a violation) and by the lock-order lemma of the model only. Index-based manager and direct-mapped cache only (the pointer-based store has no hooks). Trusted: Coq kernel, extraction, OCaml drivers, Rust harness, the hooks.",
+    "level_text": "Theorems (coq/Props/C07.v) over coq/Mgr/Conc.v: every action of every thread preserves the invariant CInv (keys distinct, node preconditions, per-level uniqueness, owned edges valid, reported count = owner tokens + parent edges), hence every state reachable under ANY interleaving is a well-formed snapshot with exact reference counts to which the canonicity theorems of C01 apply (two threads that build the same function hold the same edge = the handle of a sequential run); a node with a positive count keeps its level and children under every action of other threads and of the collector; the collector can only remove nodes without owner and parent; the table-only projection used for replay is simulated by the full model. C07_cache_* over coq/Mgr/ConcCache.v (apply cache of weak edges + collector phases, the code's protocol): the invariant KInv (CInv + every operand/value edge of every cache entry points to a stored node or terminal + buckets held by the collector are empty, locked and free of workers + one worker per bucket + exact lock bits) is preserved by every action of every thread and of the collector under every schedule; a hit returns valid edges, the thread owns them, and every edge of the entry denotes what it denoted when the entry was written (memoised function); whenever the collector removes a node all buckets are empty and locked; REFUTED by computed schedules: pre_gc skipping empty buckets, and a lock() that ignores the swapped value, both reach a dangling entry in an unlocked bucket whose next hit breaks CInv. The log-level replay lstep accepts the projection of every behaviour of the model (C07_cache_log_sim / trace_sim) and whatever it accepts has no dangling entry (C07_cache_log_inv / clog_inv). Tie to the code on every run, on the index-based manager build (all cases) and on the pointer-based manager build (--features cfg-pointer; every third history, every second hammer / gcstorm / stress case, ids ptr-*; the model is manager-agnostic: same reference-count convention stored = reported + 1, collector removes iff the stored count is 1, same hook sites): histories with 2-4 OS threads (plus the manager's worker pool: *MT function types with 1/2/4 workers) executing apply / ite / quantification / clone / drop and collections under the shared lock concurrently on one manager (BDD, BCDD, ZBDD), with seeded random yields/spins injected at the hook sites (level lock, apply cache get/add, retain/release, collector); (1) the logged table events are replayed by the extracted model step: no duplicate insertion, no stale hit, no dangling or ill-formed node, no collection of a referenced node, final table identical; (1b) the logged apply cache events are replayed by the extracted lstep/clstep: no insertion or hit in a bucket between its pre_gc lock and post_gc unlock, no removal by the collector unless ALL buckets are locked, post_gc unlocks exactly what pre_gc locked, every hit names stored nodes only and equals the entry written last; (2) every result's value table is compared with the sequential specification and all handles are audited for canonicity (same function => same edge, also across threads), well-formedness and exact reference counts on the snapshot after each block (extracted checkers of C01/C03/C05).",
+    "level_note": "PARTIAL by nature: the theorem is about the model's atomic actions; that the hooked regions of /repo are atomic (correctness of parking_lot mutexes, the hand-written RwLock and the cache's spin lock, Release/Acquire ordering on reference counts, rayon) is assumed, not verified, and data races below the granularity of the hooks cannot be exhibited: a broken bucket lock is only seen when the race actually happens in a run (the gcstorm cases make the collector take 1-2 buckets a few thousand times per case while 3 threads hammer them). The explored interleavings are those the OS scheduler plus the seeded perturbation produce (a search, not an enumeration): a replay re-runs the same case and seed but the interleaving may differ. The cache model's operator is opaque: 'memoised function' = the denotations of operand and value edges are unchanged between insertion and hit (any relation between them that held at insertion holds at the hit); it is not instantiated with the CacheOK predicate of the apply proofs (C02). The log does not contain the operator and numeric operands of an entry nor the cache contents at the start of a block (entries written before are 'unknown': their hits are only checked for dangling edges). Deadlock freedom is covered by the watchdog (a hang is a violation) and by the lock-order lemma of the model only. Direct-mapped cache only. Pointer-based manager: the table events come from LevelViewSet::get_or_insert / LevelViewSet::gc / Manager::gc of that crate; Function::clone/drop and Edge::drop_inner report retain/release (perturbation sites only, not replayed); try_remove_node (reordering, exclusive lock) and the arcslab slot allocator are not hooked (the allocator is abstracted as 'the proposed slot is not in use', as for the index store). Trusted: Coq kernel, extraction, OCaml drivers, Rust harness, the hooks.",
 }
 ALLOWED_AXIOMS = ()
 MODEL_VOS = ["Base/Conv.vo", "DD/Table.vo", "DD/TableExtra.vo", "Mgr/Conc.vo", "Mgr/ConcCache.vo"]
